@@ -600,6 +600,18 @@ def removeLayerExportLinks (cfg : Config) (l : Layer) : M Unit :=
 
 def removedSuffix : Bytes := b!"~removed"
 
+/-- the files `AddLayer` itself creates in a layer directory -/
+def ownFiles (cfg : Config) (l : Layer) : List Bytes :=
+  [pathJoin [l.layerPath, b!"layerconfig"], pathJoin [buildPath cfg l, b!"root", b!".bashrc"]]
+
+/-- `holdsOnlyOwnFiles` on a tree: every entry at or below the layer directory is a directory
+    or one of the layer's own files (filepath.Walk: lstat, no symlink is followed) -/
+def onlyOwnFiles (cfg : Config) (l : Layer) (fs : Fs.Tree) : Bool :=
+  fs.all fun e => !Fs.under l.layerPath e.1 || (match e.2 with | .dir => true | _ => false) || (ownFiles cfg l).contains e.1
+
+def holdsOnlyOwnFiles (cfg : Config) (l : Layer) : M Bool := do
+  pure (onlyOwnFiles cfg l (← getW).fs)
+
 def removeLayer (cfg : Config) (d : Defs) (name : Bytes) (removeFiles : Bool) : M Defs := do
   testName d [(name, NAME_NEED)]
   let l ← getL d name
@@ -607,7 +619,9 @@ def removeLayer (cfg : Config) (d : Defs) (name : Bytes) (removeFiles : Bool) : 
   if hasChild d name then fail "haschild"
   errorIfBusy l true
   removeLayerExportLinks cfg l
-  if removeFiles || l.state == S_complete then
+  let outright ← if removeFiles then pure true
+                 else if l.state == S_complete then holdsOnlyOwnFiles cfg l else pure false
+  if outright then
     fsRemove l.layerPath
   else
     let newname := l.layerPath ++ removedSuffix
